@@ -143,6 +143,55 @@ def encOp (enc ty vals : String) : String :=
       | none => "bad-op"
     else "SKIP"
 
+def parseBwOp (t : String) : Option BwOp :=
+  let k := (t.take 1).toString
+  let f := (t.drop 1).toString.splitOn ":"
+  match k, f with
+  | "v", [w, v] => do pure (.value (← w.toNat?) (← v.toNat?))
+  | "a", [n, v] => do pure (.aligned (← n.toNat?) (← v.toNat?))
+  | "s", [n] => do pure (.skip (← n.toNat?))
+  | "p", [n] => do pure (.nextPtr (← n.toNat?))
+  | "w", [o, v] => do pure (.writeAt (← o.toNat?) (← v.toNat?))
+  | "o", [o, v] => do pure (.alignedAt (← o.toNat?) (← v.toNat?))
+  | "q", [v] => do pure (.vlq (← v.toNat?))
+  | "z", [v] => do pure (.zigzag (← parseInt v))
+  | "f", _ => some .flush
+  | _, _ => none
+
+def parseBrOp (t : String) : Option BrOp :=
+  let k := (t.take 1).toString
+  let f := (t.drop 1).toString.splitOn ":"
+  match k, f with
+  | "v", [w] => do pure (.value (← w.toNat?))
+  | "b", [n, w] => do pure (.batch (← n.toNat?) (← w.toNat?))
+  | "k", [n, w] => do pure (.skip (← n.toNat?) (← w.toNat?))
+  | "a", [n] => do pure (.aligned (← n.toNat?))
+  | "y", [n] => do pure (.alignedBytes (← n.toNat?))
+  | "q", _ => some .vlq
+  | "z", _ => some .zigzag
+  | "o", _ => some .offset
+  | _, _ => none
+
+def brRun (total : Nat) : List BrOp → List Bool → List String → String
+  | [], _, acc => ";".intercalate acc.reverse
+  | op :: ops, bits, acc =>
+    match brStep total bits op with
+    | none => "PANIC"
+    | some (o, bits') => brRun total ops bits' (o :: acc)
+
+/-- `LevelEncoder` script: `b<levels>` = put_with_observer(buffer), `n<value>:<count>` = put_n_with_observer -/
+def parseLvlOps (s : String) : Option (List Nat) :=
+  if s = "-" then some [] else
+  (s.splitOn ";").foldlM (fun acc t =>
+    let k := (t.take 1).toString
+    let body := (t.drop 1).toString
+    if k = "b" then (parseList (fun x => x.toNat?) (body.replace "." ",")).map (acc ++ ·)
+    else if k = "n" then
+      match body.splitOn ":" with
+      | [v, c] => do pure (acc ++ List.replicate (← c.toNat?) (← v.toNat?))
+      | _ => none
+    else none) []
+
 def handle (toks : List String) : String :=
   match toks with
   -- end-to-end: the expected read-back is the canonical dump carried by the case
@@ -209,6 +258,24 @@ def handle (toks : List String) : String :=
     | _, _ => "bad-op"
   | ["enc", enc, ty, vals] => encOp enc ty vals
   | ["levels", _variant, path, rows] => levelsOp path rows
+  | ["bw", script] =>
+    match (script.splitOn ";").mapM parseBwOp with
+    | some ops =>
+      let s := ops.foldl BitWriter.step ({} : BitWriter)
+      s!"{toHex s.consume} {s.bytesWritten}"
+    | none => "bad-op"
+  | ["br", h, script] =>
+    match parseHex h, (script.splitOn ";").mapM parseBrOp with
+    | some bs, some ops => brRun (8 * bs.length) ops (bitsOfBytes bs) []
+    | _, _ => "bad-op"
+  | ["lvl", ver, maxLevel, script] =>
+    match maxLevel.toNat?, parseLvlOps script with
+    | some ml, some levels =>
+      let body := rleEncode (numRequiredBits ml) levels
+      if ver = "v1" then toHex (leBytes 4 body.length ++ body) else toHex body
+    | _, _ => "bad-op"
+  -- round trip through a compression codec: the expected output is the input
+  | ["codec", _name, h] => h
   | _ => "bad-op"
 
 end ArrowModel.C05
